@@ -22,7 +22,7 @@ from typing import List, Optional, Tuple, Dict, Any, Callable
 
 from .core import (Index, Module, FuncDef, ClassDef, VarDef, ParamDef, LocalDef, External, ModuleRef, Def,
                    AnalysisError, dotted_name, unparse, walk_own)
-from .fold import Folder, Unknown, EnumMember, Ref, Record, is_unknown, tuple_record_elements
+from .fold import Folder, Unknown, EnumMember, Ref, Record, is_unknown, tuple_record_elements, Opaque
 
 
 def util_is_abstract(fd) -> bool:
@@ -36,8 +36,18 @@ MAX_DEPTH = 40
 
 # ---------------------------------------------------------------- values
 
-class AVal:
+class AVal(Opaque):
     pass
+
+
+def wrap(v) -> 'AVal':
+    """folded value or abstract value -> abstract value"""
+    return v if isinstance(v, AVal) else K(v)
+
+
+def unwrap(v):
+    """abstract value -> what is stored inside a record (constants unwrapped, abstract values kept)"""
+    return v.v if isinstance(v, K) else v
 
 
 class K(AVal):
@@ -487,7 +497,7 @@ class Interp:
             if isinstance(v, ListVal) and len(v.items) == len(t.elts):
                 items = v.items
             elif isinstance(v, K) and isinstance(v.v, (tuple, list)) and len(v.v) == len(t.elts):
-                items = [K(x) for x in v.v]
+                items = [wrap(x) for x in v.v]
             for i, e in enumerate(t.elts):
                 if items is not None:
                     self.assign_target(e, items[i], st)
@@ -537,9 +547,9 @@ class Interp:
         if isinstance(v, ListVal):
             return v.items
         if isinstance(v, K) and isinstance(v.v, (tuple, list)):
-            return [K(x) for x in v.v]
+            return [wrap(x) for x in v.v]
         if isinstance(v, K) and isinstance(v.v, frozenset):
-            return [K(x) for x in sorted(v.v, key=repr)]
+            return [wrap(x) for x in sorted(v.v, key=repr)]
         return None
 
     def _unroll(self, s, items, st) -> List[Outcome]:
@@ -770,6 +780,17 @@ class Interp:
         if isinstance(node, ast.Name):
             return [('val', self.lookup_name(node.id, st, node), st)]
         if isinstance(node, ast.Attribute):
+            if isinstance(node.value, ast.Call) and isinstance(node.value.func, ast.Name) \
+                    and node.value.func.id == 'super' and not node.value.args:
+                d = self.ix.resolve_value(st.frame.module, st.frame.func, node)
+                f = st.frame.func
+                while f is not None and f.cls is None:
+                    f = f.parent
+                if isinstance(d, FuncDef) and f is not None and f.self_name:
+                    recv = self.lookup_name(f.self_name, st)
+                    return [('val', BoundMethod(recv, d), st)]
+                if isinstance(d, External):
+                    return [('val', K(Ref(d)), st)]
             out = []
             for kind, v, s in self.ev(node.value, st):
                 if kind == 'raise':
@@ -837,7 +858,7 @@ class Interp:
                 env = {}
                 fv = self.fo.fold(s.frame.module, s.frame.func, node, self._const_env(s))
                 if not is_unknown(fv):
-                    v = K(fv)
+                    v = wrap(fv)
             if v is None and isinstance(node, ast.Subscript) and len(vals) >= 2:
                 base, idx = vals[0], vals[1]
                 items = self.concrete_items(base)
@@ -846,7 +867,7 @@ class Interp:
                 elif isinstance(base, K) and isinstance(base.v, dict) and isinstance(idx, K):
                     try:
                         if idx.v in base.v:
-                            v = K(base.v[idx.v])
+                            v = wrap(base.v[idx.v])
                     except TypeError:
                         pass
                 if v is None:
@@ -1010,6 +1031,8 @@ class Interp:
                         return [('val', BoundMethod(v, mem), st)]
                     return [('val', FuncVal(mem), st)]
             fv = self.fo.attr_of_value(v.v, attr)
+            if isinstance(fv, AVal):
+                return [('val', fv, st)]
             if not is_unknown(fv):
                 if isinstance(fv, Ref) and isinstance(fv.d, FuncDef):
                     if fv.bound_self is not None:
@@ -1157,12 +1180,15 @@ class Interp:
                     return res
             if self.is_exception_class(cdef):
                 return [('val', Exc(cdef, args, node), st)]
-            if all(isinstance(a, K) for a in args) and all(isinstance(a, K) for a in kwargs.values()) \
-                    and tuple_record_elements(self.ix, cdef) is not None:
+            if tuple_record_elements(self.ix, cdef) is not None:
+                # tuple record: a constant structure whose fields may be abstract values
                 ctor = self.ix.class_member(cdef, '__new__')
                 env = self.bind(ctor, K(Ref(cdef)), args, kwargs, node) if isinstance(ctor, FuncDef) else None
-                if env is not None and all(isinstance(x, K) for x in env.values()):
-                    recargs = {p.arg: env[p.arg].v for p in ctor.params[1:] if p.arg in env}
+                if env is not None and '**' not in kwargs:
+                    recargs = {p.arg: unwrap(env[p.arg]) for p in ctor.params[1:] if p.arg in env}
+                    if self.hooks.record_call(cdef, node):
+                        st.trace.append(Event('call', {'callee': cdef, 'args': args, 'kwargs': kwargs, 'recv': None,
+                                                       'callee_val': cv}, node, st.frame.func))
                     return [('val', K(Record(cdef, recargs, node)), st)]
             if self.fo.is_enum(cdef) and len(args) == 1:
                 a0 = args[0]
